@@ -527,4 +527,32 @@ def stepOp (P : Params H) (w : World H) : Op H → World H × Out × List Bool
 def run (P : Params H) (w : World H) (ops : List (Op H)) : World H :=
   ops.foldl (fun w op => (stepOp P w op).1) w
 
+/-! ### What a session is handed when it acquires the contract lock; lock hand-off -/
+
+/-- v1: `Manager.Lock` returns the persisted revision (read after the lock is acquired, and only if
+`isGoodForModification` passes then); `ReviseContract` then copies the cached roots into the updater. -/
+def lockViewV1 (P : Params H) (w : World H) (id : Nat) : Option (Rev H × List Root) :=
+  if lockV1 w P id then
+    match findC w.db.contracts id with
+    | some c => some (c.rev, cacheGet w.cache id)
+    | none => none
+  else none
+
+/-- v2: `LockV2Contract` returns (Revision, Renewed, Revisable, Roots), every field read after the lock is acquired. -/
+def lockViewV2 (w : World H) (id : Nat) (heightOK : Bool) : Option (Rev H × Bool × Bool × List Root) :=
+  match findC w.db.contracts id with
+  | none => none
+  | some c =>
+    if !c.v2 then none
+    else
+      let renewed := c.renewedTo.isSome
+      some (c.rev, renewed, !renewed && heightOK, cacheGet w.cache id)
+
+/-- Lock hand-off: a caller that queued behind a holder of the same contract lock. The holder's operation runs
+to completion first (the locker serialises them); the waiter's view is computed in the world the holder left —
+not in the world in which the waiter started to wait. -/
+def handOff {α : Type} (P : Params H) (w : World H) (holder : Op H) (view : World H → α) : World H × α :=
+  let w' := (stepOp P w holder).1
+  (w', view w')
+
 end Hostd.Sectors
